@@ -319,6 +319,25 @@ theorem powerFailure_prefix {d : GD} (h : ReachableD Shape.allTrue true true d) 
     have h2' : n ≤ s ∧ (fl = true → Settled g.log n out s) ∧ (true = true → fl = true) := h2
     exact recovered_adopt_take h2'.1 (h2'.2.1 (h2'.2.2 rfl))
 
+theorem afterPowerFailureAt_synced (d : GD) : afterPowerFailureAt d d.synced = afterPowerFailure d := by
+  unfold afterPowerFailureAt afterPowerFailure
+  cases d.a.m <;> rfl
+
+/-- any survivor frontier at or above the flushed one -/
+theorem powerFailureAt_prefix {d : GD} (h : ReachableD Shape.allTrue true true d) {j : Nat}
+    (hj : d.synced ≤ j) :
+    recovered (afterPowerFailureAt d j) = recovered (d.a.g.log.take j) := by
+  have hD := reachableD_dinv h
+  obtain ⟨⟨g, m⟩, s, fl⟩ := d
+  obtain ⟨h1, h2⟩ := hD
+  cases m with
+  | idle => rfl
+  | scanning n todo out => rfl
+  | done n out =>
+    have h2' : n ≤ s ∧ (fl = true → Settled g.log n out s) ∧ (true = true → fl = true) := h2
+    have hj' : s ≤ j := hj
+    exact recovered_adopt_take (by omega) (settled_mono (h2'.2.1 (h2'.2.2 rfl)) hj')
+
 /-- a pre-boundary live record that the merge did not rewrite is superseded by a FLUSHED record -/
 theorem skipped_superseded {d : GD} {n : Nat} {out : List Rec} {k : Key} {v : Val}
     (h : ReachableD Shape.allTrue true true d) (hm : d.a.m = .done n out)
